@@ -3,14 +3,6 @@ From Mysync Require Import Gtid.Interval Gtid.GtidSet Base.Prog Base.ProgFacts B
 Import ListNotations.
 Open Scope Z_scope.
 
-(* statements that only read *)
-Definition stmt_reads (st : stmt) : bool :=
-  match st with
-  | SPing | SIsReadOnly | SIsOffline | SShowReplica | SGtidExecuted | SSemiStatus | SReplSettings
-  | SUuid | SStartupTime | SBinlogs | SWaitingAck | SProcessIds | SListEvents | SReplMonDelay | SRefused => true
-  | _ => false
-  end.
-
 (* what the lost-state handler may ever do: read anything; on the LOCAL node
    only: make it read-only, cut sessions (offline), disable semi-sync, kill
    sessions.  Nothing else - no coordination write, nothing on another host. *)
